@@ -1934,6 +1934,21 @@ func (k *Kernel) handleReplayedHeader(
 
 	h, r := header.Height, proof.Round
 
+	// The replayed header must be for the validator set the chain prescribes at this height,
+	// which is the voting view's set; the header's own copy of the set
+	// must not decide whose signatures count.
+	if !bytes.Equal(header.ValidatorSet.PubKeyHash, s.Voting.ValidatorSet.PubKeyHash) ||
+		!bytes.Equal(header.ValidatorSet.VotePowerHash, s.Voting.ValidatorSet.VotePowerHash) {
+		return tmelink.ReplayedHeaderValidationError{
+			Err: fmt.Errorf(
+				"replayed header's validator set (pub key hash %x, vote power hash %x) differs from expected set at height %d (%x, %x)",
+				header.ValidatorSet.PubKeyHash, header.ValidatorSet.VotePowerHash,
+				h, s.Voting.ValidatorSet.PubKeyHash, s.Voting.ValidatorSet.VotePowerHash,
+			),
+		}
+	}
+	valSet := s.Voting.ValidatorSet
+
 	// We might have a valid header.
 	// Confirm the hash first,
 	// under the assumption that it is cheaper to validate the hash than the signatures.
@@ -1994,15 +2009,10 @@ func (k *Kernel) handleReplayedHeader(
 				}
 			}
 
-			vals := header.ValidatorSet.Validators
-			if len(vals) == 0 {
-				// TODO: this should be a gassert instead probably?
-				panic("TODO: ValidatorSet must be populated on replayed headers")
-			}
 			haveProof, err = k.cmspScheme.New(
 				precommitContent,
-				header.ValidatorSet.PubKeys,
-				string(header.ValidatorSet.PubKeyHash),
+				valSet.PubKeys,
+				string(valSet.PubKeyHash),
 			)
 			if err != nil {
 				return tmelink.ReplayedHeaderInternalError{
@@ -2022,7 +2032,7 @@ func (k *Kernel) handleReplayedHeader(
 
 		// Now merge the incoming proof with the local copy.
 		mergeRes := haveProof.MergeSparse(gcrypto.SparseSignatureProof{
-			PubKeyHash: string(header.ValidatorSet.PubKeyHash),
+			PubKeyHash: string(valSet.PubKeyHash),
 			Signatures: sparseSigs,
 		})
 
@@ -2079,8 +2089,8 @@ func (k *Kernel) handleReplayedHeader(
 	var blockPow uint64
 	var bs bitset.BitSet
 	tempProofs[string(header.Hash)].SignatureBitSet(&bs)
-	for i, ok := bs.NextSet(0); ok && int(i) < len(header.ValidatorSet.Validators); i, ok = bs.NextSet(i + 1) {
-		blockPow += header.ValidatorSet.Validators[int(i)].Power
+	for i, ok := bs.NextSet(0); ok && int(i) < len(valSet.Validators); i, ok = bs.NextSet(i + 1) {
+		blockPow += valSet.Validators[int(i)].Power
 	}
 
 	// Arguably we could update the precommit proofs now;
